@@ -281,6 +281,9 @@ var malformed = []string{"", " ", "{field", "[1,]", "{\"a\" 1}", "{\"a\":1,}", "
 	"{\"a\":[1,2}", "[", "{", "}", "plain text body", "a=1&b=2", "<xml/>"}
 
 func gen(r *prng.R, f proto.Flags, emit func(proto.Case)) {
+	// prng.New(seed) states are shifts of each other (seed s+1 = seed s advanced by one draw); re-key through
+	// one mixed output so that different VERIF_SEEDs give unrelated streams.
+	r = r.Fork()
 	n := 40000
 	if f.Tier == "thorough" {
 		n = 300000
